@@ -100,7 +100,10 @@ class Writer:
     str
       The string representation
     """
-    fieldname = self.__class__.FIELD_ALIAS.get(fieldname, fieldname)
+    if fieldname not in self._data:
+      # (a tag of the line can have the name of an alias, e.g. LN in a GFA2
+      # segment)
+      fieldname = self.__class__.FIELD_ALIAS.get(fieldname, fieldname)
     v = self._data.get(fieldname, None)
     if v is None:
       raise gfapy.NotFoundError("Field {} not found".format(fieldname))
